@@ -35,7 +35,7 @@ class G:
         return seq[self.r.randrange(len(seq))]
 
     def weights(self, N, mode=None):
-        """None (unweighted) or dyadic weights k/8."""
+        """None (unweighted), dyadic weights k/8 (exact sums) or 3-decimal weights ('float')."""
         r = self.r
         if mode is None:
             mode = self.pick(["none", "none", "frac", "frac", "zeros", "unit8"])
@@ -47,6 +47,11 @@ class G:
             return np.array([r.randrange(1, 25) / 8.0 for _ in range(N)])
         if mode == "zeros":
             return np.array([0.0 if r.random() < 0.3 else r.randrange(1, 25) / 8.0
+                             for _ in range(N)])
+        if mode == "float":
+            # not representable in binary: sums taken in different orders differ in the last
+            # bits, which is what real survey weights do (monitors compare with a tolerance)
+            return np.array([0.0 if r.random() < 0.08 else round(r.uniform(0.05, 4.0), 3)
                              for _ in range(N)])
         raise ValueError(mode)
 
